@@ -180,6 +180,21 @@ namespace verif
                 std::string back = to_str(d.Decode());
                 V_CHECK(back == in, "C20/decode-roundtrip", "Decode(Encode(x)) != x for x=" + printable(in, 80) + " got " + printable(back, 80));
                 V_CHECK(d.CalculateDecodedSize() == in.size(), "C20/decoded-size", "CalculateDecodedSize wrong");
+                // The decoder refers to the caller's string: the same decoder object asked again after that
+                // string has changed to another text OF THE SAME DECODED LENGTH must decode the new text
+                // (one decoder kept over a buffer of fixed-width records).
+                if (!in.empty())
+                {
+                    std::string other = in;
+                    for (auto& ch : other)
+                        ch = char(ch ^ 0x5a);
+                    std::string text = enc;
+                    Base64Decoder kept(text);
+                    (void)kept.Decode();
+                    text            = Base64Encoder::EncodeString(other);
+                    std::string now = to_str(kept.Decode());
+                    V_CHECK(now == other, "C20/reused-decoder-stale", "a decoder asked again after its text changed (same decoded length, " + std::to_string(in.size()) + " bytes) returned " + printable(now, 60) + " instead of " + printable(other, 60));
+                }
             }
             catch (const std::exception& e)
             {
